@@ -86,9 +86,10 @@ impl AllocReport {
 }
 
 struct Tracker {
-    live: HashMap<usize, (Layout, u64)>,
-    /// quarantine: ptr -> (seq, layout it was allocated with)
-    freed: HashMap<usize, (u64, Layout)>,
+    /// ptr -> (layout, seq, size of the underlying System block)
+    live: HashMap<usize, (Layout, u64, usize)>,
+    /// quarantine: ptr -> (seq, layout it was allocated with, size of the underlying System block)
+    freed: HashMap<usize, (u64, Layout, usize)>,
     seq: u64,
     allocs: u64,
     frees: u64,
@@ -98,6 +99,15 @@ struct Tracker {
 thread_local! {
     static TRACKER: Cell<*mut Tracker> = const { Cell::new(std::ptr::null_mut()) };
     static BYPASS: Cell<u32> = const { Cell::new(0) };
+    /// 0: every growth relocates the block. n > 0: blocks are carved in size classes of n bytes and a
+    /// `realloc` that stays inside the class keeps the address (what size-class allocators do).
+    static CLASS: Cell<usize> = const { Cell::new(0) };
+}
+
+/// Choose how `realloc` behaves for blocks allocated from now on, on this thread: 0 = always relocate
+/// (the default), n > 0 = grow in place while the new size fits the block's n-byte size class.
+pub fn set_size_class(n: usize) {
+    CLASS.with(|c| c.set(n));
 }
 
 struct BypassGuard;
@@ -161,7 +171,7 @@ pub fn block_size(ptr: *const u8) -> Option<usize> {
         if p.is_null() {
             return None;
         }
-        unsafe { (*p).live.get(&(ptr as usize)).map(|(l, _)| l.size()) }
+        unsafe { (*p).live.get(&(ptr as usize)).map(|(l, _, _)| l.size()) }
     })
 }
 
@@ -183,9 +193,9 @@ pub fn end() -> AllocReport {
     let p = TRACKER.with(|c| c.replace(std::ptr::null_mut()));
     assert!(!p.is_null(), "alloc window not open");
     let mut t = unsafe { Box::from_raw(p) };
-    let mut q: Vec<(usize, (u64, Layout))> = t.freed.drain().collect();
+    let mut q: Vec<(usize, (u64, Layout, usize))> = t.freed.drain().collect();
     q.sort_by_key(|e| (e.1).0);
-    for (ptr, (seq, al)) in q {
+    for (ptr, (seq, al, phys)) in q {
         unsafe {
             let base = ptr as *const u8;
             for i in 0..al.size() {
@@ -194,11 +204,11 @@ pub fn end() -> AllocReport {
                     break;
                 }
             }
-            System.dealloc(ptr as *mut u8, padded(al));
+            System.dealloc(ptr as *mut u8, Layout::from_size_align_unchecked(phys, al.align()));
         }
     }
     let mut leaked: Vec<(u64, usize, usize)> =
-        t.live.values().map(|(l, s)| (*s, l.size(), l.align())).collect();
+        t.live.values().map(|(l, s, _)| (*s, l.size(), l.align())).collect();
     leaked.sort();
     AllocReport { allocs: t.allocs, frees: t.frees, events: t.events.clone(), leaked }
 }
@@ -211,8 +221,34 @@ pub fn scope<R>(f: impl FnOnce() -> R) -> (R, AllocReport) {
     (r, rep)
 }
 
+fn class_cap(size: usize) -> usize {
+    let c = CLASS.try_with(|c| c.get()).unwrap_or(0);
+    if c == 0 {
+        size
+    } else {
+        size.div_ceil(c).max(1) * c
+    }
+}
+
 fn padded(l: Layout) -> Layout {
-    Layout::from_size_align(l.size() + REDZONE, l.align()).unwrap()
+    Layout::from_size_align(class_cap(l.size()) + REDZONE, l.align()).unwrap()
+}
+
+unsafe fn write_redzone(p: *mut u8, size: usize) {
+    let rz = p.add(size);
+    std::ptr::write_bytes(rz, 0xA5, REDZONE - 1);
+    *rz.add(REDZONE - 1) = 0;
+}
+
+unsafe fn check_redzone(p: *const u8, size: usize) -> Option<usize> {
+    let rz = p.add(size);
+    for i in 0..REDZONE {
+        let want = if i == REDZONE - 1 { 0 } else { 0xA5 };
+        if *rz.add(i) != want {
+            return Some(i);
+        }
+    }
+    None
 }
 
 unsafe impl GlobalAlloc for TrackAlloc {
@@ -225,18 +261,54 @@ unsafe impl GlobalAlloc for TrackAlloc {
             return System.alloc(layout);
         }
         let _g = BypassGuard::new();
-        let p = System.alloc(padded(layout));
+        let phys = padded(layout);
+        let p = System.alloc(phys);
         if p.is_null() {
             return p;
         }
-        let rz = p.add(layout.size());
-        std::ptr::write_bytes(rz, 0xA5, REDZONE - 1);
-        *rz.add(REDZONE - 1) = 0;
+        write_redzone(p, layout.size());
         let t = &mut *tp;
         t.seq += 1;
         t.allocs += 1;
-        t.live.insert(p as usize, (layout, t.seq));
+        t.live.insert(p as usize, (layout, t.seq, phys.size()));
         p
+    }
+
+    unsafe fn realloc(&self, ptr: *mut u8, layout: Layout, new_size: usize) -> *mut u8 {
+        let tp = TRACKER.try_with(|c| c.get()).unwrap_or(std::ptr::null_mut());
+        if !tp.is_null() && BYPASS.try_with(|b| b.get()).unwrap_or(1) == 0 {
+            let _g = BypassGuard::new();
+            let t = &mut *tp;
+            if let Some(&(al, seq, phys)) = t.live.get(&(ptr as usize)) {
+                // in place: the block was carved with slack (size-class mode) and the new size fits it
+                if phys > al.size() + REDZONE && new_size + REDZONE <= phys && new_size > al.size() {
+                    if al != layout {
+                        t.events.push(AllocEvent::LayoutMismatch {
+                            seq,
+                            alloc_size: al.size(),
+                            alloc_align: al.align(),
+                            free_size: layout.size(),
+                            free_align: layout.align(),
+                        });
+                    }
+                    if let Some(i) = check_redzone(ptr, al.size()) {
+                        t.events.push(AllocEvent::RedzoneCorrupt { seq, size: al.size(), first_bad_offset: i });
+                    }
+                    write_redzone(ptr, new_size);
+                    let nl = Layout::from_size_align_unchecked(new_size, al.align());
+                    t.live.insert(ptr as usize, (nl, seq, phys));
+                    return ptr;
+                }
+            }
+        }
+        // relocate: allocate, copy, free (each step tracked as usual)
+        let nl = Layout::from_size_align_unchecked(new_size, layout.align());
+        let np = self.alloc(nl);
+        if !np.is_null() {
+            std::ptr::copy_nonoverlapping(ptr, np, layout.size().min(new_size));
+            self.dealloc(ptr, layout);
+        }
+        np
     }
 
     unsafe fn dealloc(&self, ptr: *mut u8, layout: Layout) {
@@ -247,7 +319,7 @@ unsafe impl GlobalAlloc for TrackAlloc {
         let _g = BypassGuard::new();
         let t = &mut *tp;
         match t.live.remove(&(ptr as usize)) {
-            Some((al, seq)) => {
+            Some((al, seq, phys)) => {
                 t.frees += 1;
                 if al != layout {
                     t.events.push(AllocEvent::LayoutMismatch {
@@ -258,24 +330,15 @@ unsafe impl GlobalAlloc for TrackAlloc {
                         free_align: layout.align(),
                     });
                 }
-                let rz = ptr.add(al.size());
-                let mut bad = None;
-                for i in 0..REDZONE {
-                    let want = if i == REDZONE - 1 { 0 } else { 0xA5 };
-                    if *rz.add(i) != want {
-                        bad = Some(i);
-                        break;
-                    }
-                }
-                if let Some(i) = bad {
+                if let Some(i) = check_redzone(ptr, al.size()) {
                     t.events.push(AllocEvent::RedzoneCorrupt { seq, size: al.size(), first_bad_offset: i });
                 }
                 // quarantine + poison: use-after-free reads see 0xDD, writes are detected at end()
                 std::ptr::write_bytes(ptr, 0xDD, al.size());
-                t.freed.insert(ptr as usize, (seq, al));
+                t.freed.insert(ptr as usize, (seq, al, phys));
             }
             None => {
-                if let Some(&(seq, al)) = t.freed.get(&(ptr as usize)) {
+                if let Some(&(seq, al, _)) = t.freed.get(&(ptr as usize)) {
                     t.events.push(AllocEvent::DoubleFree { seq, size: al.size() });
                     // not forwarded
                 } else {
